@@ -153,6 +153,32 @@ fn decode<T: 'static>(label: &str, fut: impl Future<Output = T> + 'static) -> Op
     sim::block_on(label, Some(sim::draw_params()), fut)
 }
 
+/// Client disconnect: the wrapped future is dropped at the await point it is suspended at after `polls` polls.
+struct CancelAfter<F> {
+    inner: Option<Pin<Box<F>>>,
+    polls: u32,
+}
+
+impl<F: Future> Future for CancelAfter<F> {
+    type Output = Option<F::Output>;
+    fn poll(mut self: Pin<&mut Self>, cx: &mut Cx<'_>) -> Poll<Self::Output> {
+        if self.polls == 0 {
+            sim::count("fault:request-cancelled");
+            sim::log_order("request future dropped (client went away)".to_string());
+            self.inner = None;
+            return Poll::Ready(None);
+        }
+        self.polls -= 1;
+        match self.inner.as_mut().expect("polled after completion").as_mut().poll(cx) {
+            Poll::Ready(v) => {
+                self.inner = None;
+                Poll::Ready(Some(v))
+            }
+            Poll::Pending => Poll::Pending,
+        }
+    }
+}
+
 fn req_fields(r: &Request) -> J {
     json!({
         "query": r.query,
@@ -1220,7 +1246,9 @@ fn run_c12(variant: usize) -> CaseOut {
             let use_json_fn = variant == 0 && chance(1, 4);
             // hostile multipart bodies also meet a failing disk while their files are spooled
             disk_begin(if variant == 1 && chance(1, 2) { 2 } else { 0 });
-            let res = decode("hostile-body", async move {
+            // now and then the client goes away: the request future is dropped after a few polls
+            let cancel_polls = if chance(1, 6) { Some(draw(24)) } else { None };
+            let res = decode("hostile-body", CancelAfter { polls: cancel_polls.unwrap_or(u32::MAX), inner: Some(Box::pin(async move {
                 let decoded = if use_json_fn {
                     receive_json(reader).await.map(BatchRequest::Single)
                 } else {
@@ -1234,7 +1262,7 @@ fn run_c12(variant: usize) -> CaseOut {
                         Ok(serde_json::to_value(&resp).unwrap())
                     }
                 }
-            });
+            })) });
             let disk = disk_end();
             if res.is_none() {
                 out.viol("C12/stall", format!("decoding a hostile body did not finish; body {:?}; plan {:?}; disk {disk:?}", String::from_utf8_lossy(&body), plan));
